@@ -188,10 +188,12 @@ impl<const BUFFER_CAPACITY: usize> RibbonController<BUFFER_CAPACITY> {
             // if this flag is true right now then they must have just lifted their finger
             if self.finger_is_pressing {
                 self.finger_just_released = true;
-                self.num_samples_received = 0;
-                self.num_samples_written = 0;
                 self.finger_is_pressing = false;
             }
+
+            // any break in the contact starts the capture over, taps too short to register must not add up
+            self.num_samples_received = 0;
+            self.num_samples_written = 0;
         }
     }
 
